@@ -133,11 +133,12 @@ class C18(F.Spec):
         if extra:
             ops.append("imgfill %d %d" % (extra, rng.randint(1, 1 << 30)))
         # header
-        hkind = rng.choice(["ok"] * 6 + ["limit", "limit", "lenless", "lenmore", "zero", "huge", "nonnum", "nolen", "404", "notype", "long",
+        hkind = rng.choice(["ok"] * 6 + ["limit", "limit", "lenless", "lenmore", "zero", "huge", "huge", "nonnum", "nolen", "404", "notype", "long",
                             "after", "after", "lfonly", "wrap", "dupe", "leadzero", "first"])
         A = {"lenless": max(1, L - rng.choice([1, 16, 528, 600])), "lenmore": L + rng.choice([1, 16, 4096]), "zero": 0,
              "limit": (SLOTS[m][2] if m in SLOTS else 503808) + rng.choice([0, 1, 1, 4096, 4097]),
-             "huge": rng.choice([2 ** 31, 2 ** 31 - 1, 2 ** 30 + 7, 1028097, 503809]),
+             "huge": rng.choice([2 ** 31, 2 ** 31 - 1, 2 ** 30 + 7, 1028097, 503809,
+                                 2 ** 32 - 65535, 2 ** 32 - 1, 2 ** 31 + 5, 2 ** 32 - 4096]),     # (the last four: negative as a 32-bit int)
              "wrap": L + rng.choice([1, 2, 7]) * 2 ** 32}.get(hkind, L)
         status = b"HTTP/1.1 404 Not Found" if hkind == "404" else b"HTTP/1.1 200 OK"
         lines = [status, b"Server: test", b"Content-Type: " + (b"text/html" if hkind == "notype" else b"application/octet-stream")]
